@@ -174,7 +174,7 @@ theorem exec_KeyInv {s : Store} (hwf : WF s) (ht : TInv s) (hk : KeyInv s) (st :
           have := hinv.raw i
           rw [hie] at this
           split at this
-          · cases this; simp [shellElem] at hkey
+          · cases this; simp [shellElem, stubRow] at hkey
           · exact this.symm
         intro i j ei ej hi hj h1 h2 hkey hkeq hteq
         rcases hrow i ei h1 with ⟨x, hx, hxc, hxr⟩ | ⟨hni, h1'⟩ <;> rcases hrow j ej h2 with ⟨y, hy, hyc, hyr⟩ | ⟨hnj, h2'⟩
